@@ -11,6 +11,7 @@ from dst.storage import builder
 from dst.storage.simfile import Budget, IoSeam, ReadBudgetExceeded
 
 ID = "C09"
+RUN_WALL_S = 90    # per-run wall-clock alarm for loops that perform no I/O (see core.guarded)
 LEVEL = "exploration"
 RUNS = {"quick": 30000, "thorough": 400000}
 CHUNK = {"quick": 50, "thorough": 200}
